@@ -1196,7 +1196,9 @@ deep_copy_svalue (svalue_t * from, svalue_t * to)
              MAX_SAVE_SVALUE_DEPTH);
         }
       {
-        array_t *vec = allocate_empty_array (from->u.arr->size);
+        /* a class is released by dealloc_class(), which does not touch the array statistics */
+        array_t *vec = (from->type == T_CLASS) ? allocate_class_by_size (from->u.arr->size)
+                                               : allocate_empty_array (from->u.arr->size);
         int i;
 
         *to = *from;
